@@ -301,8 +301,107 @@ def run_extra_configs(prop, tier, configs, contracts_dir, evidence_path, rc):
     return rc
 
 
+# ---- dependency closure ---------------------------------------------------------------------------------------------------
+# A functional property ("the result equals ...") of a function also depends on the functions it calls: the caller is verified
+# against the callee's CONTRACT, so a callee whose contract fails makes the caller's proved statement void. The units a
+# property speaks for are therefore its declared units (props= in the sidecars) plus the units reachable from them through
+# calls. Calls are resolved syntactically and conservatively: `name(..)` to a free function unit of that name (same file, or
+# unique in the crate), `Type::name(..)` to the units of that type's impls, and `.name(..)` only for the methods of the
+# container traits (every impl: the object API is generic over them); other method calls are not followed.
+# Frame / provenance / OS properties (C04 totality, C11, C14, C17, C19) are NOT closed this way: a callee computing a wrong value
+# does not break them.
+FUNCTIONAL_PROPS = ('C01', 'C02', 'C03', 'C05', 'C06', 'C07', 'C08', 'C09', 'C10', 'C12', 'C13', 'C16', 'C18')
+CONTAINER_TRAITS = ('Bytes', 'MutBytes', 'ByteArray', 'MutByteArray', 'NewBytes', 'NewByteArray', 'ResizableBytes')
+CONTAINER_CLOSURE_PROPS = ('C01', 'C16', 'C18')   # "with any byte container" / "every supported container type"
+_CLOSURE_CACHE = {}
+
+
+def _unit_meta(u):
+    segs = [x.strip() for x in u['path'].split(' :: ')]
+    name = re.sub(r'^fn\s+', '', segs[-1])
+    name = re.sub(r'<.*$', '', name).strip()
+    typ, trait = None, None
+    for sg in reversed(segs[:-1]):
+        if sg.startswith('impl'):
+            h = re.sub(r'^impl\s*(<[^>]*(?:<[^>]*>[^>]*)*>)?\s*', '', sg)
+            if ' for ' in h:
+                trait, h = h.split(' for ', 1)
+                trait = re.sub(r'<.*$', '', trait.strip()).split('::')[-1].strip()
+            m = re.match(r'[&\s]*([A-Za-z_][A-Za-z0-9_]*)', h.strip())
+            typ = m.group(1) if m else None
+            break
+    return name, typ, trait
+
+
+def prop_units(prop, index):
+    key = (prop, id(index))
+    if key in _CLOSURE_CACHE:
+        return _CLOSURE_CACHE[key]
+    declared = [u for u in index['units'] if prop in u['props']]
+    if prop not in FUNCTIONAL_PROPS:
+        _CLOSURE_CACHE[key] = declared
+        return declared
+    metas = {u['uid']: _unit_meta(u) for u in index['units']}
+    by_name = {}
+    for u in index['units']:
+        by_name.setdefault(metas[u['uid']][0], []).append(u)
+    texts = {}
+
+    def text(u):
+        if u['uid'] not in texts:
+            try:
+                t = engine.unit_orig_text(u)
+            except Exception:
+                t = ''
+            t = re.sub(r'//[^\n]*', '', t)
+            t = re.sub(r'/\*.*?\*/', '', t, flags=re.S)
+            t = re.sub(r'"(?:[^"\\]|\\.)*"', '""', t)
+            texts[u['uid']] = t
+        return texts[u['uid']]
+
+    def callees(u):
+        out = []
+        t = text(u)
+        own = metas[u['uid']][0]
+        for m in re.finditer(r'(?:(\b[A-Za-z_][A-Za-z0-9_]*)\s*(?:::<[^>()]*>)?\s*::\s*|(\.)\s*)?\b([a-z_][A-Za-z0-9_]*)\s*(?:::<[^>()]*>)?\s*\(', t):
+            q, dot, name = m.group(1), m.group(2), m.group(3)
+            cands = by_name.get(name)
+            if not cands or (name == own and len(cands) == 1):
+                continue
+            if q:
+                if q in ('Self', 'self', 'super', 'crate'):
+                    sel = [c for c in cands if c['file'] == u['file']]
+                else:
+                    sel = [c for c in cands if metas[c['uid']][1] == q or engine.module_of(c['file']).split('::')[-1] == q]
+            elif dot:
+                # `.name(..)`: the receiver's type is unknown here; only the container-trait methods are resolved (to every impl)
+                # ... and only for the properties whose statement quantifies over the byte containers
+                sel = [c for c in cands if metas[c['uid']][2] in CONTAINER_TRAITS] if prop in CONTAINER_CLOSURE_PROPS else []
+            else:
+                free = [c for c in cands if metas[c['uid']][1] is None]
+                same = [c for c in free if c['file'] == u['file']]
+                sel = same or (free if len(free) == 1 else [])
+            out.extend(sel)
+        return out
+
+    seen = set(u['uid'] for u in declared)
+    work = list(declared)
+    extra = []
+    while work:
+        u = work.pop()
+        for c in callees(u):
+            if c['uid'] not in seen:
+                seen.add(c['uid'])
+                c2 = dict(c, closure=True)
+                extra.append(c2)
+                work.append(c2)
+    res = declared + extra
+    _CLOSURE_CACHE[key] = res
+    return res
+
+
 def modules_for(prop, index, spec_dir):
-    units = [u for u in index['units'] if prop in u['props']]
+    units = prop_units(prop, index)
     bottoms = [b for b in index['bottoms'] if prop in b['props']]
     files = sorted(set(u['file'] for u in units) | set(b['file'] for b in bottoms))
     mods = [engine.module_of(f) for f in files]
@@ -378,7 +477,7 @@ def clause_props(scratch, unit, err):
 
 
 def decide(prop, tier, seed, cfg, scratch, index, spec_dir, contracts_dir, evidence_path, t0, res):
-    units = [u for u in index['units'] if prop in u['props']]
+    units = prop_units(prop, index)
     bottoms = [b for b in index['bottoms'] if prop in b['props'] or not b['props']]
     lost = [l for l in index['lost'] if prop in l['props'] or not l['props']]
     modules = modules_for(prop, index, spec_dir)
@@ -394,7 +493,7 @@ def decide(prop, tier, seed, cfg, scratch, index, spec_dir, contracts_dir, evide
     except Exception:
         baseline = {}
     changed_assumed = []
-    files_of_prop = set(u['file'] for u in units)
+    files_of_prop = set(u['file'] for u in units if not u.get('closure'))
     for w in index['wraps']:
         if w.get('file') in files_of_prop:
             for sib in w.get('trait_impl_methods_assumed', []):
@@ -425,6 +524,9 @@ def decide(prop, tier, seed, cfg, scratch, index, spec_dir, contracts_dir, evide
                 if ps is None:
                     ps = sorted(post_props) if post_props else list(u['props'])
                 if prop in ps:
+                    mine.append(e)
+                elif u.get('closure') and not set(ps) <= set(('C04', 'C11', 'C14', 'C17', 'C19')):
+                    # a dependency of this property's functions: any failed functional clause voids what was proved about them
                     mine.append(e)
             other = [e for e in v['errors'] if e['kind'] != 'failed']
             if mine:
@@ -821,8 +923,8 @@ def vacuity_pass(prop, modules, rlimit, spec_dir, contracts_dir):
         hard = [g for g in glob if g.get('kind') == 'other']
         if hard:
             return {'probes': 0, 'refuted_as_required': 0, 'vacuous': [], 'tool_error': hard[0]['message'][:200]}
-        for u in index['units']:
-            if prop not in u['props'] or u['assumed']:
+        for u in prop_units(prop, index):
+            if u['assumed']:
                 continue
             errs = verdicts[u['uid']]['errors']
             if any('assertion failed' in e['message'] for e in errs):
